@@ -197,7 +197,7 @@ func c08Headers(r *Run) {
 	}
 	// server side: header lists with key-case variants, several entries, malformed first
 	keys := []string{"grpc-timeout", "GRPC-Timeout", "Grpc-Timeout", "gRPC-TIMEOUT", "grpc-timeou", "x-grpc-timeout", "other"}
-	vals := []string{"5S", "100m", "1H", "99999999H", "-5S", "", "12", "7x", "3u", "00000001n"}
+	vals := []string{"5S", "100m", "1H", "99999999H", "-5S", "", "12", "7x", "3u", "00000001n", "0S", "0n", "00000000H", "0m"}
 	for i := 0; i < n; i++ {
 		k := 1 + rng.Intn(3)
 		kvs := make([]*goatorepo.KeyValue, k)
@@ -219,6 +219,12 @@ func c08Headers(r *Run) {
 		}
 		cancel()
 		r.Case("hdrbetween", kvInput(kvs)+"|"+iv, out)
+		// a single well-formed header conveys a deadline, also when the time left is zero
+		if k == 1 && strings.EqualFold(kvs[0].Key, "grpc-timeout") && err == nil {
+			if _, wf := map[string]bool{"5S": true, "100m": true, "1H": true, "99999999H": true, "3u": true, "00000001n": true, "0S": true, "0n": true, "00000000H": true, "0m": true}[kvs[0].Value]; wf && out != "in" {
+				r.Violate("headers.server.nodeadline", "ops", "a well-formed grpc-timeout header did not give the handler's context a deadline", kvInput(kvs), out, "a deadline")
+			}
+		}
 	}
 }
 
